@@ -706,6 +706,14 @@ pub struct State {
     pub cancel_hid: AtomicUsize,
     /// 0 = not fired, 1 = fired outside of fixpoint/fallback frames, 2 = fired below such a frame
     pub cancel_fired: AtomicUsize,
+    /// node index + 1 at whose entry handle `gate_hid` reports `gate_reached` and waits for
+    /// `gate_open` (at most ~5 s); 0 = none
+    pub gate_node: AtomicUsize,
+    pub gate_hid: AtomicUsize,
+    pub gate_reached: AtomicBool,
+    pub gate_open: AtomicBool,
+    /// the injected panic fires once (the flag is cleared by the panicking body)
+    pub panic_once: AtomicBool,
     /// busy work per node entry (threads mode, widens the race windows)
     pub spin: AtomicU32,
     pub created: Mutex<Vec<Created>>,
@@ -814,6 +822,11 @@ impl Db {
             cancel_node: AtomicUsize::new(0),
             cancel_hid: AtomicUsize::new(usize::MAX),
             cancel_fired: AtomicUsize::new(0),
+            gate_node: AtomicUsize::new(0),
+            gate_hid: AtomicUsize::new(usize::MAX),
+            gate_reached: AtomicBool::new(false),
+            gate_open: AtomicBool::new(false),
+            panic_once: AtomicBool::new(false),
             spin: AtomicU32::new(0),
             created: Mutex::new(Vec::new()),
             violations: Mutex::new(Vec::new()),
@@ -902,14 +915,35 @@ fn body(db: &dyn PDb, key: Key) -> u8 {
         trace::note(&format!("self-cancel node {n} handle {}", db.hid()));
         db.cancellation_token().cancel();
     }
+    if st.gate_node.load(Ordering::SeqCst) == n + 1
+        && st.gate_hid.load(Ordering::SeqCst) == db.hid()
+        && !st.gate_reached.swap(true, Ordering::SeqCst)
+    {
+        trace::note(&format!("gate node {n} handle {}", db.hid()));
+        let t0 = std::time::Instant::now();
+        while !st.gate_open.load(Ordering::SeqCst) {
+            if t0.elapsed() > std::time::Duration::from_secs(5) {
+                st.violation(format!("harness: gate at node {n} never opened"));
+                break;
+            }
+            // sleep rather than spin: the threads we wait for need the cores
+            std::thread::sleep(std::time::Duration::from_micros(100));
+        }
+    }
+    let fire = |st: &State| {
+        if st.panic_once.load(Ordering::SeqCst) {
+            st.panic_node.store(0, Ordering::SeqCst);
+        }
+        std::panic::panic_any(Injected(n));
+    };
     let panics = st.panic_node.load(Ordering::SeqCst) == n + 1;
     if panics && !st.panic_at_exit.load(Ordering::Relaxed) {
-        std::panic::panic_any(Injected(n));
+        fire(st);
     }
     let v = eval(db, st, &st.prog.nodes[n].body);
     trace::perturb();
     if panics && st.panic_node.load(Ordering::SeqCst) == n + 1 {
-        std::panic::panic_any(Injected(n));
+        fire(st);
     }
     v
 }
